@@ -1,6 +1,7 @@
 //! bc — bounded contract replay on the real affinitree crate (DESIGN.md §2.5).
 //! Every sub-command evaluates the executable form of a contract on a finite, stated space of
 //! cases and prints one JSON report as the last stdout line.  Bounded: never counted as proof.
+mod c_more;
 mod c_pwl;
 mod c_tree;
 mod fm;
@@ -61,6 +62,10 @@ fn main() {
         "prune" => c_pwl::prune(&mut rep, tier),
         "reduce" => c_pwl::reduce(&mut rep, tier),
         "histories" => c_pwl::histories(&mut rep, tier),
+        "lp-debug" => { lp_debug(); return; }
+        "regions" => c_more::regions(&mut rep, tier),
+        "cleanup" => c_more::cleanup(&mut rep, tier),
+        "faults" => c_more::faults(&mut rep, tier),
         "traversal" => c_tree::traversal(&mut rep, tier),
         "tree-ops" => c_tree::tree_ops(&mut rep, tier),
         _ => {
@@ -69,4 +74,20 @@ fn main() {
         }
     }
     rep.print();
+}
+
+#[allow(dead_code)]
+pub fn lp_debug() {
+    use affinitree::linalg::affine::Polytope;
+    use ndarray::{arr1, arr2};
+    let p = Polytope::from_mats(arr2(&[[0.0, 1.0]]), arr1(&[0.0]));
+    println!("min -y s.t. y<=0 : {:?}", p.solve_linprog(arr1(&[0.0, -1.0]), false));
+    println!("status: {:?}", p.status());
+    let lp = p.as_linprog(arr1(&[0.0, -1.0]));
+    match lp.solver.solve() {
+        Ok(sol) => println!("raw: obj={} x={:?}", sol.objective(), lp.vars.iter().map(|v| sol[*v]).collect::<Vec<_>>()),
+        Err(e) => println!("raw err {e:?}"),
+    }
+    let p = Polytope::from_mats(arr2(&[[0.0, 1.0], [1.0, 0.0]]), arr1(&[0.0, 5.0]));
+    println!("min -y s.t. y<=0, x<=5 : {:?}", p.solve_linprog(arr1(&[0.0, -1.0]), false));
 }
